@@ -279,3 +279,68 @@ Proof.
   rewrite rstrip_by_cons; [now rewrite IH|].
   rewrite forallb_app, H. apply andb_false_r.
 Qed.
+
+(* ---------- partition / rpartition on one character ---------- *)
+
+Lemma mem_char_In c s : mem_char c s = true <-> In c s.
+Proof.
+  induction s as [|x s IH]; simpl; [split; [discriminate|contradiction]|].
+  rewrite orb_true_iff, IH, N.eqb_eq. tauto.
+Qed.
+
+Lemma mem_char_false c s : mem_char c s = false <-> ~ In c s.
+Proof. rewrite <- mem_char_In. destruct (mem_char c s); split; congruence. Qed.
+
+Lemma partition_char_spec c s :
+  match partition_char c s with
+  | (a, true, b) => s = a ++ c :: b /\ ~ In c a
+  | (a, false, b) => a = s /\ b = [] /\ ~ In c s
+  end.
+Proof.
+  induction s as [|x s IH]; simpl; [repeat split; auto|].
+  destruct (x =? c) eqn:E.
+  - apply N.eqb_eq in E. subst. split; [reflexivity|auto].
+  - apply N.eqb_neq in E. destruct (partition_char c s) as [[a f] b]. destruct f.
+    + destruct IH as [-> Hn]. split; [reflexivity|]. intros [H|H]; [congruence|contradiction].
+    + destruct IH as (-> & -> & Hn). repeat split. intros [H|H]; [congruence|contradiction].
+Qed.
+
+Lemma rpartition_char_spec c s :
+  match rpartition_char c s with
+  | (a, true, b) => s = a ++ c :: b /\ ~ In c b
+  | (a, false, b) => a = [] /\ b = s /\ ~ In c s
+  end.
+Proof.
+  unfold rpartition_char. pose proof (partition_char_spec c (rev s)) as H.
+  destruct (partition_char c (rev s)) as [[a f] b]. destruct f.
+  - destruct H as [E Hn]. split.
+    + rewrite <- (rev_involutive s), E, rev_app_distr. simpl. now rewrite <- app_assoc.
+    + now rewrite <- in_rev.
+  - destruct H as (_ & _ & Hn). repeat split. now rewrite in_rev.
+Qed.
+
+(* the split of  a ++ c :: b  when c does not occur in a / in b *)
+Lemma partition_char_app c a b : ~ In c a -> partition_char c (a ++ c :: b) = (a, true, b).
+Proof.
+  induction a as [|x a IH]; simpl; intros Hn; [now rewrite N.eqb_refl|].
+  destruct (x =? c) eqn:E; [apply N.eqb_eq in E; subst; exfalso; apply Hn; now left|].
+  rewrite IH; [reflexivity|]. intros H. apply Hn. now right.
+Qed.
+
+Lemma partition_char_absent c s : ~ In c s -> partition_char c s = (s, false, []).
+Proof.
+  induction s as [|x s IH]; simpl; intros Hn; [reflexivity|].
+  destruct (x =? c) eqn:E; [apply N.eqb_eq in E; subst; exfalso; apply Hn; now left|].
+  rewrite IH; [reflexivity|]. intros H. apply Hn. now right.
+Qed.
+
+Lemma rpartition_char_app c a b : ~ In c b -> rpartition_char c (a ++ c :: b) = (a, true, b).
+Proof.
+  intros Hn. unfold rpartition_char. rewrite rev_app_distr. simpl. rewrite <- app_assoc. simpl.
+  rewrite partition_char_app by now rewrite <- in_rev. now rewrite !rev_involutive.
+Qed.
+
+Lemma rpartition_char_absent c s : ~ In c s -> rpartition_char c s = ([], false, s).
+Proof.
+  intros Hn. unfold rpartition_char. rewrite partition_char_absent by now rewrite <- in_rev. reflexivity.
+Qed.
